@@ -177,7 +177,8 @@ def interleaved_generators(ctx, rng):
 
     def scenario(mode, seed, nabandon):
         r = random.Random(seed)
-        dev = simdev.SimDevice(chooser=simdev.Seeded(seed), seed=seed)
+        from .. import scen as scen_
+        dev = simdev.SimDevice(chooser=simdev.Seeded(seed), seed=seed, rid_of=scen_.rid_fn(('plus', 'mirror', 'same', 'random')[seed % 4], seed))
         scripts = {}
         names = ['g%d' % i for i in range(r.randint(2, 4))]
         for nm in names:
@@ -193,6 +194,28 @@ def interleaved_generators(ctx, rng):
         sess.call('connect')
         got = {nm: [] for nm in names}
         errors = []
+        leaks0 = len(env.LOCK_LEAKS)
+        if seed % 3 == 0:
+            # the cyclic garbage collector runs at an arbitrary allocation - for instance inside a bulk_read, while the transport lock is held -
+            # and finalises generators the caller has dropped (here: abandoned streams kept in reference cycles)
+            import gc
+            orig_read = sess.core.read
+            cnt = {'n': 0}
+
+            def read_gc(n_, t_):
+                cnt['n'] += 1
+                if cnt['n'] % 3 == 0:
+                    gc.collect()
+                return orig_read(n_, t_)
+            sess.core.read = read_gc
+
+        def drop_in_cycle(g_):
+            box = {'g': g_}
+            box['self'] = box
+
+        def tick():
+            if seed % 5 == 0 and r.random() < 0.3:
+                sess.clock.advance(r.choice([61.0, 7200.0]))     # the owner of a stream does not come back to it for a long time
         if mode == 'sync':
             gens = {nm: iter(sess.device.streaming_shell(nm, decode=False, read_timeout_s=2.0)) for nm in names}
             live = list(names)
@@ -206,8 +229,11 @@ def interleaved_generators(ctx, rng):
                         next(g)
                     except Exception as e:  # noqa
                         errors.append(('abandoned', repr(e)))
+                    drop_in_cycle(g)
+                    del g
                     opened_abandoned += 1
                     continue
+                tick()
                 c = r.random()
                 if c < 0.15:
                     try:
@@ -241,6 +267,7 @@ def interleaved_generators(ctx, rng):
                             errors.append(('abandoned', repr(e)))
                         opened += 1
                         continue
+                    tick()
                     c = r.random()
                     if c < 0.15:
                         try:
@@ -262,12 +289,17 @@ def interleaved_generators(ctx, rng):
             sess.loop.run_until_complete(go())
         sess.close_loop()
         bad = [(nm, got[nm], scripts[nm]) for nm in names if got[nm] != scripts[nm]]
+        if len(env.LOCK_LEAKS) > leaks0:
+            # in a single thread a lock requested while it is held can never be granted: with real locks this is a deadlock
+            errors.append(('deadlock', 'a lock was requested while the same thread held it: ' + env.LOCK_LEAKS[-1][-300:]))
         return bad, errors
 
-    def long_lived(mode, nabandon):
-        """Stream A stays open (its CLSE withheld) while `nabandon` other streams are opened and abandoned; then another
-        operation's reader reads A's CLSE off the wire; A must still end normally."""
-        dev = simdev.SimDevice(chooser=simdev.First())
+    def long_lived(mode, nabandon, rid='plus', complete=False):
+        """Stream A stays open (its CLSE withheld) while `nabandon` other streams are opened and abandoned (or, with complete=True, run to
+        their end); then another operation's reader reads A's CLSE off the wire; A must still end normally.  With rid='mirror' the
+        second stream's (local id, remote id) is the mirror image of A's."""
+        from .. import scen as scen_
+        dev = simdev.SimDevice(chooser=simdev.First(), rid_of=scen_.rid_fn(rid, 1))
         dev.shell_scripts[b'shell:long'] = [b'A1']
         dev.shell_scripts[b'shell:whole'] = [b'w1']
         dev.service_for = lambda dest, d: (simdev.ShellService([b'x'], close=False) if dest.startswith(b'shell:ab') else None)
@@ -279,7 +311,10 @@ def interleaved_generators(ctx, rng):
             out['first'] = next(ga)
             dev.frozen = {dev.all_streams[0].lid}
             for j in range(nabandon):
-                next(iter(sess.device.streaming_shell('ab%d' % j, decode=False, read_timeout_s=2.0)))
+                if complete:
+                    sess.device.shell('whole', decode=False, read_timeout_s=2.0)
+                else:
+                    next(iter(sess.device.streaming_shell('ab%d' % j, decode=False, read_timeout_s=2.0)))
             dev.frozen = set()
             out['whole'] = sess.device.shell('whole', decode=False, read_timeout_s=2.0)
             try:
@@ -292,7 +327,10 @@ def interleaved_generators(ctx, rng):
                 out['first'] = await ga.__anext__()
                 dev.frozen = {dev.all_streams[0].lid}
                 for j in range(nabandon):
-                    await sess.device.streaming_shell('ab%d' % j, decode=False, read_timeout_s=2.0).__aiter__().__anext__()
+                    if complete:
+                        await sess.device.shell('whole', decode=False, read_timeout_s=2.0)
+                    else:
+                        await sess.device.streaming_shell('ab%d' % j, decode=False, read_timeout_s=2.0).__aiter__().__anext__()
                 dev.frozen = set()
                 out['whole'] = await sess.device.shell('whole', decode=False, read_timeout_s=2.0)
                 try:
@@ -375,17 +413,17 @@ def interleaved_generators(ctx, rng):
                     ctx.violation('C06.SameAsAlone', dict(kind='operations of a new connection next to a generator left over from the previous one', mode=mode, close_before_connect=with_close,
                                                           order_variant=k, observed={a: repr(b)[:120] for a, b in out.items()}))
     for mode in ('sync', 'async'):
-        for nab in (0, 3, 70, 300):
-            out = long_lived(mode, nab)
+        for (nab, rid, complete) in ((0, 'plus', False), (3, 'plus', False), (70, 'plus', False), (300, 'plus', False), (1, 'mirror', True), (2, 'mirror', True), (1, 'same', True), (3, 'mirror', False)):
+            out = long_lived(mode, nab, rid, complete)
             n += 1
             if out != dict(first=b'A1', whole=b'w1', rest=[]):
-                ctx.violation('C06.SameAsAlone', dict(kind='a stream kept open across %d abandoned streams, its CLSE read by another operation' % nab, mode=mode, observed={k: repr(v)[:80] for k, v in out.items()}))
-    cases = [(m, ctx.seed * 100 + k, 0) for k in range(30 if ctx.quick else 600) for m in ('sync', 'async')] + [(m, ctx.seed + 7, 70) for m in ('sync', 'async')]
+                ctx.violation('C06.SameAsAlone', dict(kind='a stream kept open across %d %s streams (remote ids: %s), its CLSE read by another operation' % (nab, 'completed' if complete else 'abandoned', rid), mode=mode, observed={k: repr(v)[:80] for k, v in out.items()}))
+    cases = [(m, ctx.seed * 100 + k, 2 if k % 3 == 0 else 0) for k in range(30 if ctx.quick else 600) for m in ('sync', 'async')] + [(m, ctx.seed + 7, 70) for m in ('sync', 'async')]
     for (mode, seed, nab) in cases:
         bad, errors = scenario(mode, seed, nab)
         n += 1
         if bad or errors:
-            ctx.violation('C06.SameAsAlone', dict(kind='interleaved generators in one %s' % ('thread' if mode == 'sync' else 'task'), mode=mode, seed=seed, abandoned_streams=nab,
+            ctx.violation('C06.NoDeadlock' if any(e_[0] == 'deadlock' for e_ in errors) else 'C06.SameAsAlone', dict(kind='interleaved generators in one %s' % ('thread' if mode == 'sync' else 'task'), mode=mode, seed=seed, abandoned_streams=nab,
                                                   wrong=[(a, [bytes(x) for x in b][:5], c[:5]) for a, b, c in bad][:3], errors=errors[:3]))
             if len(ctx.violations) >= 3:
                 break
